@@ -24,6 +24,18 @@ theorem nc18a_bare_cr_splits_record :
     parse .exetera ['s', ',', 'n', '\n', 'i', '\r', 'j', ',', '5', '\n'] = [[['s'], ['n']], [['i', '\r', 'j'], ['5']]] := by
   decide
 
+/-- D30 / NC18a repaired (fixes/D30_NC18a): with ExeTera's own `_csv_record` both witnesses are written in quotes and both
+    readers return them intact. -/
+theorem d30_nc18a_repaired_cells_survive :
+    toCsv csvRecord [⟨['s'], [[' ', 'a'], [' ', ' ']]⟩, ⟨['n'], [['1'], ['2']]⟩] .none .none 2
+      = .ok ['s', ',', 'n', '\n', '"', ' ', 'a', '"', ',', '1', '\n', '"', ' ', ' ', '"', ',', '2', '\n'] ∧
+    parse .exetera ['s', ',', 'n', '\n', '"', ' ', 'a', '"', ',', '1', '\n', '"', ' ', ' ', '"', ',', '2', '\n']
+      = [[['s'], ['n']], [[' ', 'a'], ['1']], [[' ', ' '], ['2']]] ∧
+    toCsv csvRecord [⟨['s'], [['i', '\r', 'j']]⟩, ⟨['n'], [['5']]⟩] .none .none 1
+      = .ok ['s', ',', 'n', '\n', '"', 'i', '\r', 'j', '"', ',', '5', '\n'] ∧
+    parse .std ['s', ',', 'n', '\n', '"', 'i', '\r', 'j', '"', ',', '5', '\n'] = [[['s'], ['n']], [['i', '\r', 'j'], ['5']]] := by
+  decide
+
 /-- NC18b as found (repaired by fixes/NC18b): `to_pandas` refused the row filters `to_csv` accepts — a Field, and a boolean
     filter shorter than the frame — and read an integer array as row numbers. The repaired variant returns the rows `to_csv`
     writes. -/
